@@ -55,9 +55,12 @@ Model/Suite.vos Model/Suite.vok Model/Suite.required_vos: Model/Suite.v Base/Pre
 Model/Url.vo Model/Url.glob Model/Url.v.beautified Model/Url.required_vo: Model/Url.v Base/Prelude.vo Generated/Tables.vo Model/Errors.vo Model/Decoder.vo Model/Otp.vo Model/Utils.vo Model/Suite.vo
 Model/Url.vio: Model/Url.v Base/Prelude.vio Generated/Tables.vio Model/Errors.vio Model/Decoder.vio Model/Otp.vio Model/Utils.vio Model/Suite.vio
 Model/Url.vos Model/Url.vok Model/Url.required_vos: Model/Url.v Base/Prelude.vos Generated/Tables.vos Model/Errors.vos Model/Decoder.vos Model/Otp.vos Model/Utils.vos Model/Suite.vos
-Model/Runner.vo Model/Runner.glob Model/Runner.v.beautified Model/Runner.required_vo: Model/Runner.v Base/Prelude.vo Hash/Sha.vo Generated/Tables.vo Model/Errors.vo Model/Decoder.vo Model/Derive.vo Model/Otp.vo Model/Ocra.vo Spec/Rfc4226.vo Spec/Rfc6287.vo Spec/Rfc4648.vo Model/Utils.vo Model/Random.vo Model/Suite.vo Spec/SuiteName.vo Model/Url.vo
-Model/Runner.vio: Model/Runner.v Base/Prelude.vio Hash/Sha.vio Generated/Tables.vio Model/Errors.vio Model/Decoder.vio Model/Derive.vio Model/Otp.vio Model/Ocra.vio Spec/Rfc4226.vio Spec/Rfc6287.vio Spec/Rfc4648.vio Model/Utils.vio Model/Random.vio Model/Suite.vio Spec/SuiteName.vio Model/Url.vio
-Model/Runner.vos Model/Runner.vok Model/Runner.required_vos: Model/Runner.v Base/Prelude.vos Hash/Sha.vos Generated/Tables.vos Model/Errors.vos Model/Decoder.vos Model/Derive.vos Model/Otp.vos Model/Ocra.vos Spec/Rfc4226.vos Spec/Rfc6287.vos Spec/Rfc4648.vos Model/Utils.vos Model/Random.vos Model/Suite.vos Spec/SuiteName.vos Model/Url.vos
+Model/Wasm.vo Model/Wasm.glob Model/Wasm.v.beautified Model/Wasm.required_vo: Model/Wasm.v Base/Prelude.vo Hash/Sha.vo Generated/Tables.vo Model/Errors.vo Model/Decoder.vo Model/Derive.vo Model/Otp.vo Model/Utils.vo Model/Suite.vo Model/Url.vo
+Model/Wasm.vio: Model/Wasm.v Base/Prelude.vio Hash/Sha.vio Generated/Tables.vio Model/Errors.vio Model/Decoder.vio Model/Derive.vio Model/Otp.vio Model/Utils.vio Model/Suite.vio Model/Url.vio
+Model/Wasm.vos Model/Wasm.vok Model/Wasm.required_vos: Model/Wasm.v Base/Prelude.vos Hash/Sha.vos Generated/Tables.vos Model/Errors.vos Model/Decoder.vos Model/Derive.vos Model/Otp.vos Model/Utils.vos Model/Suite.vos Model/Url.vos
+Model/Runner.vo Model/Runner.glob Model/Runner.v.beautified Model/Runner.required_vo: Model/Runner.v Base/Prelude.vo Hash/Sha.vo Generated/Tables.vo Model/Errors.vo Model/Decoder.vo Model/Derive.vo Model/Otp.vo Model/Ocra.vo Spec/Rfc4226.vo Spec/Rfc6287.vo Spec/Rfc4648.vo Model/Utils.vo Model/Random.vo Model/Suite.vo Spec/SuiteName.vo Model/Url.vo Model/Wasm.vo Generated/JsExports.vo
+Model/Runner.vio: Model/Runner.v Base/Prelude.vio Hash/Sha.vio Generated/Tables.vio Model/Errors.vio Model/Decoder.vio Model/Derive.vio Model/Otp.vio Model/Ocra.vio Spec/Rfc4226.vio Spec/Rfc6287.vio Spec/Rfc4648.vio Model/Utils.vio Model/Random.vio Model/Suite.vio Spec/SuiteName.vio Model/Url.vio Model/Wasm.vio Generated/JsExports.vio
+Model/Runner.vos Model/Runner.vok Model/Runner.required_vos: Model/Runner.v Base/Prelude.vos Hash/Sha.vos Generated/Tables.vos Model/Errors.vos Model/Decoder.vos Model/Derive.vos Model/Otp.vos Model/Ocra.vos Spec/Rfc4226.vos Spec/Rfc6287.vos Spec/Rfc4648.vos Model/Utils.vos Model/Random.vos Model/Suite.vos Spec/SuiteName.vos Model/Url.vos Model/Wasm.vos Generated/JsExports.vos
 Extract/Extract.vo Extract/Extract.glob Extract/Extract.v.beautified Extract/Extract.required_vo: Extract/Extract.v Model/Runner.vo
 Extract/Extract.vio: Extract/Extract.v Model/Runner.vio
 Extract/Extract.vos Extract/Extract.vok Extract/Extract.required_vos: Extract/Extract.v Model/Runner.vos
@@ -118,6 +121,9 @@ Proofs/UrlProofs.vos Proofs/UrlProofs.vok Proofs/UrlProofs.required_vos: Proofs/
 Proofs/TotalProofs.vo Proofs/TotalProofs.glob Proofs/TotalProofs.v.beautified Proofs/TotalProofs.required_vo: Proofs/TotalProofs.v Base/Prelude.vo Hash/Sha.vo Generated/Tables.vo Model/Errors.vo Model/Decoder.vo Model/Derive.vo Model/Otp.vo Model/Ocra.vo Model/Utils.vo Model/Random.vo Model/Suite.vo Model/Url.vo Proofs/DeriveProofs.vo Proofs/OtpProofs.vo Proofs/OcraProofs.vo Proofs/UtilsProofs.vo Proofs/SuiteProofs.vo
 Proofs/TotalProofs.vio: Proofs/TotalProofs.v Base/Prelude.vio Hash/Sha.vio Generated/Tables.vio Model/Errors.vio Model/Decoder.vio Model/Derive.vio Model/Otp.vio Model/Ocra.vio Model/Utils.vio Model/Random.vio Model/Suite.vio Model/Url.vio Proofs/DeriveProofs.vio Proofs/OtpProofs.vio Proofs/OcraProofs.vio Proofs/UtilsProofs.vio Proofs/SuiteProofs.vio
 Proofs/TotalProofs.vos Proofs/TotalProofs.vok Proofs/TotalProofs.required_vos: Proofs/TotalProofs.v Base/Prelude.vos Hash/Sha.vos Generated/Tables.vos Model/Errors.vos Model/Decoder.vos Model/Derive.vos Model/Otp.vos Model/Ocra.vos Model/Utils.vos Model/Random.vos Model/Suite.vos Model/Url.vos Proofs/DeriveProofs.vos Proofs/OtpProofs.vos Proofs/OcraProofs.vos Proofs/UtilsProofs.vos Proofs/SuiteProofs.vos
+Proofs/WasmProofs.vo Proofs/WasmProofs.glob Proofs/WasmProofs.v.beautified Proofs/WasmProofs.required_vo: Proofs/WasmProofs.v Base/Prelude.vo Hash/Sha.vo Generated/Tables.vo Generated/JsExports.vo Model/Errors.vo Model/Decoder.vo Model/Derive.vo Model/Otp.vo Model/Utils.vo Model/Suite.vo Model/Url.vo Model/Wasm.vo Spec/Rfc4226.vo Proofs/BitLemmas.vo Proofs/DeriveProofs.vo Proofs/OtpProofs.vo Proofs/SuiteProofs.vo
+Proofs/WasmProofs.vio: Proofs/WasmProofs.v Base/Prelude.vio Hash/Sha.vio Generated/Tables.vio Generated/JsExports.vio Model/Errors.vio Model/Decoder.vio Model/Derive.vio Model/Otp.vio Model/Utils.vio Model/Suite.vio Model/Url.vio Model/Wasm.vio Spec/Rfc4226.vio Proofs/BitLemmas.vio Proofs/DeriveProofs.vio Proofs/OtpProofs.vio Proofs/SuiteProofs.vio
+Proofs/WasmProofs.vos Proofs/WasmProofs.vok Proofs/WasmProofs.required_vos: Proofs/WasmProofs.v Base/Prelude.vos Hash/Sha.vos Generated/Tables.vos Generated/JsExports.vos Model/Errors.vos Model/Decoder.vos Model/Derive.vos Model/Otp.vos Model/Utils.vos Model/Suite.vos Model/Url.vos Model/Wasm.vos Spec/Rfc4226.vos Proofs/BitLemmas.vos Proofs/DeriveProofs.vos Proofs/OtpProofs.vos Proofs/SuiteProofs.vos
 Properties/C08.vo Properties/C08.glob Properties/C08.v.beautified Properties/C08.required_vo: Properties/C08.v Base/Prelude.vo Spec/Rfc4648.vo Model/Decoder.vo Model/Random.vo Proofs/Base32Proofs.vo Proofs/UtilsProofs.vo
 Properties/C08.vio: Properties/C08.v Base/Prelude.vio Spec/Rfc4648.vio Model/Decoder.vio Model/Random.vio Proofs/Base32Proofs.vio Proofs/UtilsProofs.vio
 Properties/C08.vos Properties/C08.vok Properties/C08.required_vos: Properties/C08.v Base/Prelude.vos Spec/Rfc4648.vos Model/Decoder.vos Model/Random.vos Proofs/Base32Proofs.vos Proofs/UtilsProofs.vos
@@ -136,3 +142,6 @@ Properties/C16.vos Properties/C16.vok Properties/C16.required_vos: Properties/C1
 Properties/C17.vo Properties/C17.glob Properties/C17.v.beautified Properties/C17.required_vo: Properties/C17.v Base/Prelude.vo Model/Errors.vo Spec/Rfc4226.vo Spec/Rfc6287.vo Hash/Sha.vo Model/Decoder.vo Model/Derive.vo Model/Otp.vo Model/Ocra.vo Model/Utils.vo Proofs/DeriveProofs.vo Proofs/OcraProofs.vo Proofs/UtilsProofs.vo
 Properties/C17.vio: Properties/C17.v Base/Prelude.vio Model/Errors.vio Spec/Rfc4226.vio Spec/Rfc6287.vio Hash/Sha.vio Model/Decoder.vio Model/Derive.vio Model/Otp.vio Model/Ocra.vio Model/Utils.vio Proofs/DeriveProofs.vio Proofs/OcraProofs.vio Proofs/UtilsProofs.vio
 Properties/C17.vos Properties/C17.vok Properties/C17.required_vos: Properties/C17.v Base/Prelude.vos Model/Errors.vos Spec/Rfc4226.vos Spec/Rfc6287.vos Hash/Sha.vos Model/Decoder.vos Model/Derive.vos Model/Otp.vos Model/Ocra.vos Model/Utils.vos Proofs/DeriveProofs.vos Proofs/OcraProofs.vos Proofs/UtilsProofs.vos
+Properties/C20.vo Properties/C20.glob Properties/C20.v.beautified Properties/C20.required_vo: Properties/C20.v Base/Prelude.vo Hash/Sha.vo Generated/Tables.vo Generated/JsExports.vo Model/Errors.vo Model/Decoder.vo Model/Derive.vo Model/Otp.vo Model/Utils.vo Model/Suite.vo Model/Url.vo Model/Wasm.vo Proofs/WasmProofs.vo
+Properties/C20.vio: Properties/C20.v Base/Prelude.vio Hash/Sha.vio Generated/Tables.vio Generated/JsExports.vio Model/Errors.vio Model/Decoder.vio Model/Derive.vio Model/Otp.vio Model/Utils.vio Model/Suite.vio Model/Url.vio Model/Wasm.vio Proofs/WasmProofs.vio
+Properties/C20.vos Properties/C20.vok Properties/C20.required_vos: Properties/C20.v Base/Prelude.vos Hash/Sha.vos Generated/Tables.vos Generated/JsExports.vos Model/Errors.vos Model/Decoder.vos Model/Derive.vos Model/Otp.vos Model/Utils.vos Model/Suite.vos Model/Url.vos Model/Wasm.vos Proofs/WasmProofs.vos
